@@ -23,58 +23,11 @@ LEVEL_TEXT = (
 PRIMS = ("_init", "_put", "_get")
 
 
-def skip_decision(ctx, RS, q=None):
-    """put() delegates iff (_last_item is None or item != _last_item) and reads nothing else (shared with C01 / C04: a queue that
-    skips anything but a pending duplicate drops an event)."""
+def queue_bookkeeping(ctx, RB, RD, RR):
+    """Ownership of the duplicate bookkeeping, delegation of the primitives to the FIFO base, reset on dequeue (shared with
+    C01 / C04: any of them failing makes the observer's event queue drop or duplicate an event)."""
     P = ctx.P
     field = "_last_item"
-    q = q or P.cls("SkipRepeatsQueue")
-    en = Enumerator(Cfg(P))
-    pf = q.methods.get("put")
-    if pf is None:
-        raise AnalysisError("anchor vanished: SkipRepeatsQueue.put")
-    paths = en.run(pf)
-    ctx.count("paths", len(paths))
-    names_ok = True
-    for n in ast.walk(pf.node):
-        if isinstance(n, (ast.If, ast.IfExp, ast.While)):
-            used = {dotted(x) for x in ast.walk(n.test) if isinstance(x, (ast.Name, ast.Attribute)) and dotted(x)}
-            used = {u for u in used if u not in ("self",)}
-            if not used <= {"item", f"self.{field}", "None"}:
-                names_ok = False
-    ctx.check(names_ok, RS, "SkipRepeatsQueue.put decision inputs", "the skip decision reads something other than item and _last_item", pf.loc)
-    ok, msg = True, ""
-    for p in paths:
-        deleg = [e for e in p.evs if e.kind == "call" and e.extra.get("func") == "super().put"]
-        a = p.conds().get(f"self.{field} is None")
-        b = None
-        for k, v in p.conds().items():
-            if re.fullmatch(rf"item == self\.{field}|self\.{field} == item", k):
-                b = v
-        should = (a is True) or (b is False)
-        if a is None and b is None:
-            ok, msg = False, "put() does not test _last_item at all"
-            break
-        if should and len(deleg) != 1:
-            ok, msg = False, f"put() drops an item that is not a duplicate of the pending last item (path: {p.sig()})"
-        if not should and deleg:
-            ok, msg = False, f"put() enqueues a duplicate of the pending last item (path: {p.sig()})"
-        for d in deleg:
-            if (d.extra.get("args") or [""])[0] != "item":
-                ok, msg = False, "put() delegates something other than the item"
-    ctx.check(ok, RS, "SkipRepeatsQueue.put truth table", msg, pf.loc)
-    ctx.sample({"put_paths": [p.sig() for p in paths]})
-
-
-
-def run(ctx) -> None:
-    P = ctx.P
-    RB = ctx.rule("C16/bookkeeping-in-critical-section", "_last_item is written only inside _init/_put/_get (run by queue.Queue with its mutex held)", floor=2)
-    RD = ctx.rule("C16/primitives-delegate", "_put and _get delegate exactly once to the base FIFO primitive; the base is queue.Queue", floor=3)
-    RR = ctx.rule("C16/reset-on-dequeue", "_get clears _last_item exactly when the dequeued item is that item", floor=1)
-    RS = ctx.rule("C16/skip-decision-local", "put() delegates iff (_last_item is None or item != _last_item); the decision reads only item and _last_item", floor=2)
-    RE = ctx.rule("C16/event-equality", "events are equal iff same class and same field values: generated dataclass __eq__, no compare=False, no subclass __eq__/__hash__/new fields", floor=12)
-
     q = P.cls("SkipRepeatsQueue")
     mro = P.mro("SkipRepeatsQueue")
     ctx.check(any(b in ("queue.Queue", "Queue") for b in mro) and not any("Lifo" in b or "Priority" in b for b in mro), RD, "SkipRepeatsQueue bases", f"bases {mro}: the FIFO base queue.Queue is required", q.loc)
@@ -148,6 +101,62 @@ def run(ctx) -> None:
                     ok3, msg = False, "_get does not return the item it dequeued"
             ctx.check(ok3, RR, "SkipRepeatsQueue._get", msg, mf.loc)
 
+    return q
+
+
+def skip_decision(ctx, RS, q=None):
+    """put() delegates iff (_last_item is None or item != _last_item) and reads nothing else (shared with C01 / C04: a queue that
+    skips anything but a pending duplicate drops an event)."""
+    P = ctx.P
+    field = "_last_item"
+    q = q or P.cls("SkipRepeatsQueue")
+    en = Enumerator(Cfg(P))
+    pf = q.methods.get("put")
+    if pf is None:
+        raise AnalysisError("anchor vanished: SkipRepeatsQueue.put")
+    paths = en.run(pf)
+    ctx.count("paths", len(paths))
+    names_ok = True
+    for n in ast.walk(pf.node):
+        if isinstance(n, (ast.If, ast.IfExp, ast.While)):
+            used = {dotted(x) for x in ast.walk(n.test) if isinstance(x, (ast.Name, ast.Attribute)) and dotted(x)}
+            used = {u for u in used if u not in ("self",)}
+            if not used <= {"item", f"self.{field}", "None"}:
+                names_ok = False
+    ctx.check(names_ok, RS, "SkipRepeatsQueue.put decision inputs", "the skip decision reads something other than item and _last_item", pf.loc)
+    ok, msg = True, ""
+    for p in paths:
+        deleg = [e for e in p.evs if e.kind == "call" and e.extra.get("func") == "super().put"]
+        a = p.conds().get(f"self.{field} is None")
+        b = None
+        for k, v in p.conds().items():
+            if re.fullmatch(rf"item == self\.{field}|self\.{field} == item", k):
+                b = v
+        should = (a is True) or (b is False)
+        if a is None and b is None:
+            ok, msg = False, "put() does not test _last_item at all"
+            break
+        if should and len(deleg) != 1:
+            ok, msg = False, f"put() drops an item that is not a duplicate of the pending last item (path: {p.sig()})"
+        if not should and deleg:
+            ok, msg = False, f"put() enqueues a duplicate of the pending last item (path: {p.sig()})"
+        for d in deleg:
+            if (d.extra.get("args") or [""])[0] != "item":
+                ok, msg = False, "put() delegates something other than the item"
+    ctx.check(ok, RS, "SkipRepeatsQueue.put truth table", msg, pf.loc)
+    ctx.sample({"put_paths": [p.sig() for p in paths]})
+
+
+
+def run(ctx) -> None:
+    P = ctx.P
+    RB = ctx.rule("C16/bookkeeping-in-critical-section", "_last_item is written only inside _init/_put/_get (run by queue.Queue with its mutex held)", floor=2)
+    RD = ctx.rule("C16/primitives-delegate", "_put and _get delegate exactly once to the base FIFO primitive; the base is queue.Queue", floor=3)
+    RR = ctx.rule("C16/reset-on-dequeue", "_get clears _last_item exactly when the dequeued item is that item", floor=1)
+    RS = ctx.rule("C16/skip-decision-local", "put() delegates iff (_last_item is None or item != _last_item); the decision reads only item and _last_item", floor=2)
+    RE = ctx.rule("C16/event-equality", "events are equal iff same class and same field values: generated dataclass __eq__, no compare=False, no subclass __eq__/__hash__/new fields", floor=12)
+
+    q = queue_bookkeeping(ctx, RB, RD, RR)
     skip_decision(ctx, RS, q)
 
     # ---- event equality
